@@ -18,7 +18,7 @@ n_bsdq == <<97, 92, 34, 98>>      \* a backslash immediately followed by a doubl
 \* names that begin with a word the lexer knows (nil, in, or, and, not, true, None, contains) and go on
 n_nilx == <<110, 105, 108, 120>>  n_inx == <<105, 110, 120>>  n_orx == <<111, 114, 120>>  n_andx == <<97, 110, 100, 120>>  n_notx == <<110, 111, 116, 120>>
 n_1ar2 == <<49, 1634>>  n_us == <<97, 31>>  n_pct == <<37, 52, 49>>  n_A == <<65>>  n_m0 == <<45, 48>>
-n_dash == <<45>>  n_vt == <<97, 11>>  n_lfend == <<97, 10>>  n_ecomb == <<101, 769>>      \* U+000B (escaped with a hex letter), a final line feed, e + combining acute (not NFC)
+n_p1 == <<43, 49>>  n_aplusb == <<97, 43, 98>>  n_asb == <<97, 32, 98>>  n_dash == <<45>>  n_vt == <<97, 11>>  n_lfend == <<97, 10>>  n_ecomb == <<101, 769>>      \* U+000B (escaped with a hex letter), a final line feed, e + combining acute (not NFC)
 n_andemo == <<97, 110, 100, 128512>>  n_oremo == <<111, 114, 128512>>      \* a lexer word followed by a non-ASCII symbol (not a letter): still one name
 n_truex == <<116, 114, 117, 101, 120>>  n_Nonex == <<78, 111, 110, 101, 120>>  n_containsx == <<99, 111, 110, 116, 97, 105, 110, 115, 120>>
 n_c1 == <<1>>  n_bs == <<92>>  n_x == <<120>>  n_y == <<121>>  n_k == <<107>>
@@ -26,7 +26,7 @@ n_c1 == <<1>>  n_bs == <<92>>  n_x == <<120>>  n_y == <<121>>  n_k == <<107>>
 S(str) == Str(str)
 Ints(n) == Arr([i \in 1..n |-> IntV(i - 1)])
 
-SpecialNames == <<n_ee, n_emo, n_sq, n_dq, n_abs, n_anb, n_and, n_sp, n_ab_, n_tld, n_sl, n_true, n_c1, n_bs, n_e, n_1, n_t1, n_at1b, n_t0, n_big, n_del, n_aemo, n_bsdq, n_nilx, n_inx, n_orx, n_andx, n_notx, n_truex, n_Nonex, n_containsx, n_andemo, n_oremo, n_1ar2, n_us, n_pct, n_A, n_m0, n_vt, n_lfend, n_ecomb, n_dash>>
+SpecialNames == <<n_ee, n_emo, n_sq, n_dq, n_abs, n_anb, n_and, n_sp, n_ab_, n_tld, n_sl, n_true, n_c1, n_bs, n_e, n_1, n_t1, n_at1b, n_t0, n_big, n_del, n_aemo, n_bsdq, n_nilx, n_inx, n_orx, n_andx, n_notx, n_truex, n_Nonex, n_containsx, n_andemo, n_oremo, n_1ar2, n_us, n_pct, n_A, n_m0, n_vt, n_lfend, n_ecomb, n_dash, n_p1, n_aplusb>>
 
 DocSeq == <<
   Ints(0), Ints(1), Ints(2), Ints(3), Ints(4), Ints(5), Ints(6),
